@@ -45,7 +45,33 @@ def run(ck):
                 return own
             return None
         return atom
+    handled_in_entry = False
     if not flushes:
+        # the flush may sit in the Qt-facing entry instead, right after the locked run (whether it is still under the lock is C02's business)
+        mh = F.fn(LG + "::messageHandler", optional=True)
+        if mh is not None:
+            gm = Graph(mh)
+            pc = [n for n in mh.calls() if n.get("fn") == pm.id]
+            fl2 = [n for n in mh.calls() if name_is(n.get("callee"), (SPL + "::flush",))]
+            if len(pc) == 1 and fl2:
+                ck.touch(mh)
+                tdecl_m = mh.params[0]["decl"]
+
+                def atom_m(n):
+                    if n.get("k") == "binop" and n.get("op") in ("==", "!=") and ((is_ref_to(n.get("lhs"), tdecl_m) and const_int(n.get("rhs")) is not None) or (is_ref_to(n.get("rhs"), tdecl_m) and const_int(n.get("lhs")) is not None)):
+                        k = const_int(n.get("rhs")) if is_ref_to(n.get("lhs"), tdecl_m) else const_int(n.get("lhs"))
+                        return (fatal == k) if n["op"] == "==" else (fatal != k)
+                    if is_call(n, "QtLogger::OwnThreadHandler::ownThreadIsRunning"):
+                        return False
+                    return None
+                a = gm.postdominated(gm.site_of(pc[0]), set(gm.sites_of_nodes(fl2)), keep=gm.projector(atom_m))
+                same_obj = all(describe(unwrap_ptr(f_.get("obj"))) == describe(unwrap_ptr(pc[0].get("obj"))) for f_ in fl2)
+                handled_in_entry = True
+                ck.ob("C11-O1", sitestr(mh, fl2[0]), a and same_obj, "fatal message: messageHandler flushes the logger right after processMessage() returned, on every path" if (a and same_obj) else
+                      "fatal path in messageHandler: flush-after-run-on-every-path=%s, same-logger=%s" % (a, same_obj), key="Logger::processMessage|no-flush-on-fatal")
+    if handled_in_entry:
+        pass
+    elif not flushes:
         ck.ob("C11-O1", sitestr(pm), False, "nothing flushes the sinks when a fatal message is logged: Qt aborts right after the handler returns and buffered records are lost", key="Logger::processMessage|no-flush-on-fatal")
     else:
         fs = set(g.sites_of_nodes(flushes))
